@@ -137,7 +137,7 @@ def expectedClasses : List ClassDesc := [
     repr := [] },
   { name := "SegmentationClassGroups", bases := ["SupportsConfig"], inherits := none,
     params := ["groups"], noneDefault := [],
-    stores := [("group_dictionary", .const "{}"), ("labels", .const "[]"), ("group_dictionary", .other "assigned inside: if isinstance(groups, list)"), ("group_dictionary", .other "assigned inside: if isinstance(groups, list)"), ("group_dictionary", .other "assigned inside: if isinstance(groups, list)"), ("labels", .const "labels")],
+    stores := [("group_dictionary", .const "{}"), ("labels", .const "[]"), ("group_dictionary", .other "assigned inside: if isinstance(groups, list)"), ("labels", .const "labels")],
     repr := [("groups", .attr "group_dictionary")] },
   { name := "_NoSegmentationClassGroups", bases := ["SegmentationClassGroups"], inherits := none,
     params := [], noneDefault := [],
